@@ -209,9 +209,7 @@ class Machine:
         its full snapshot still equals the one taken when it was built, with both caches cleared)"""
         if self.base_kind == "small":
             return self.fresh()
-        if self.fresh_db is not None and snapshot.registry_light(self.fresh_db) == self.fresh_snap:
-            self.fresh_db.quantities_cache.clear()
-            self.fresh_db._category_unit_valid.clear()
+        if self.fresh_db is not None and snapshot.registry_light(self.fresh_db) == self.fresh_snap and env.clear_caches(self.fresh_db):
             return self.fresh_db
         self.fresh_db = self.fresh()
         self.fresh_snap = snapshot.registry_light(self.fresh_db)
